@@ -28,7 +28,7 @@ def make_flow_scenarios(ctx, count):
         s = H.Scenario("f%d" % i)
         s.iface(0, **H.iface_kw(cfg)).glob(**G.global_kw(G.rand_global(rng, icon_size=0)))
         s.add("OPT sleep=0 txhex=0")
-        s.add("NOW %d" % rng.choice([0, 1, 500, 999, 1000, 77777, (1 << 32) - 40000, (1 << 32) - 5000, (1 << 32) + 1, 1 << 40]))
+        s.add("NOW %d" % rng.choice([0, 1, 500, 999, 1000, 77777, (1 << 32) - 40000, (1 << 32) - 5000, (1 << 32) + 1, 1 << 40, 4294967296000 - 100000, 4294967296000 - 20000]))
         ops = []
         m = 0
         # half of the histories run beside a second interface of the same process with its own engine and traffic,
